@@ -38,6 +38,8 @@ KINDS = {
                   copy=lambda dest, o, keep, name: dest.create_data_array(name=name or "", copy_from=o, keep_copy_id=keep)),
     "array-selflink": dict(src=lambda f: f.blocks["blk"].data_arrays["evt"], cont="data_arrays", parent_kind="block",
                            copy=lambda dest, o, keep, name: dest.create_data_array(name=name or "", copy_from=o, keep_copy_id=keep)),
+    "array-big": dict(src=lambda f: f.blocks["blk"].data_arrays["bigdata"], cont="data_arrays", parent_kind="block",
+                      copy=lambda dest, o, keep, name: dest.create_data_array(name=name or "", copy_from=o, keep_copy_id=keep)),
     "array-text": dict(src=lambda f: f.blocks["blk"].data_arrays["txt"], cont="data_arrays", parent_kind="block",
                        copy=lambda dest, o, keep, name: dest.create_data_array(name=name or "", copy_from=o, keep_copy_id=keep)),
     "frame": dict(src=lambda f: f.blocks["blk"].data_frames["frame"], cont="data_frames", parent_kind="block",
@@ -214,6 +216,10 @@ def run_case(case):
             src.create_section("leaf", "sectype").create_property("p2", ["x"])
         else:
             seeds.build_rich(f)
+            if kind == "array-big":
+                # 200 000 float64 values (1.6 MB, several chunks); the last element is not zero
+                bd = f.blocks["blk"].create_data_array("bigdata", "signal", data=np.arange(200000, dtype=np.float64) + 1)
+                bd.append_sampled_dimension(0.5, unit="ms")
             if kind == "section-bare-parent":
                 kid = f.create_section("bare", "sectype").create_section("kid", "sectype")      # the parent has no properties
                 kid.create_property("kp", [2.5])
@@ -236,11 +242,21 @@ def run_case(case):
                 f.sections["sec"].create_property("data", [7, 8])
                 f.sections["sec"].create_section("data", "sectype").create_property("data", ["d"])
                 f.sections["sec"].sections["sec"].create_section("data", "sectype")
+                # chains that are NOT shallow: nine levels of sections below sec and below sec/sec, nine levels of sources in blk
+                for top in (f.sections["sec"], f.sections["sec"].sections["sec"]):
+                    p_ = top
+                    for lvl in range(9):
+                        p_ = p_.create_section("deep%d" % lvl, "sectype")
+                        p_.create_property("dp", [lvl])
+                p_ = blk_.create_source("deepsrc", "sourcetype")
+                for lvl in range(9):
+                    p_ = p_.create_source("deep%d" % lvl, "sourcetype")
+                blk_.data_arrays["sig"].sources.append(p_)
         srcname = src.name
         # ---- destination parent
         destfile = f
         if destk == "other-file":
-            f2 = nix.File.open(p2, nix.FileMode.Overwrite)
+            f2 = nix.File.open(p2, nix.FileMode.Overwrite, **({"compression": nix.Compression.DeflateNormal} if kind == "array-big" else {}))
             destfile = f2
         pk = K["parent_kind"]
         if pk == "file":
@@ -253,7 +269,7 @@ def run_case(case):
             if destk == "same-parent":
                 dest = f.blocks["blk"]
             else:
-                dest = destfile.create_block("dest", "t")
+                dest = destfile.create_block("dest", "t", **({"compression": nix.Compression.DeflateNormal} if kind == "array-big" else {}))
                 if namep == "colliding":
                     # something of that name already lives in the destination
                     if kind.startswith("array"):
